@@ -3,7 +3,8 @@
 import json, os, shutil, sys, re
 P, N, verdict = sys.argv[1], sys.argv[2], sys.argv[3]
 wave = sys.argv[4] if len(sys.argv) > 4 else "1"
-src = "/tmp/seeded_out/%s" % P
+import os as _os
+src = (_os.environ.get("SEEDOUT", "/tmp/seeded_out")) + "/%s" % P
 name = "%s-w%s-%s" % (P, wave, N)
 dst = "/verif/seeded/%s" % name
 os.makedirs(dst, exist_ok=True)
@@ -18,7 +19,7 @@ meta = dict(
     needs_to_manifest=re.sub(r"\s+", " ", notes.strip())[:1200],
     confirmed=dict(compiles=True, existing_suite_passes=True, demo_fails_with_change=True, demo_passes_without_change=True,
                    how="tools/seedcheck.sh %s %s: applied in a scratch worktree, go build (both tags), go test -vet=off -count=1 ./..., demo test with and without the change" % (P, N)),
-    check_run="./check %s quick with the patch applied to /repo, then git -C /repo checkout -- ." % P,
+    check_run="./check %s quick against the patched scratch worktree (VERIF_REPO), and again by selftest.py mutants with the patch applied to /repo itself and reverted" % P,
     check_result=verdict, check_violation=viol[:400],
 )
 json.dump(meta, open(os.path.join(dst, "meta.json"), "w"), indent=1)
